@@ -55,8 +55,15 @@ for p in $PROPS; do
 done
 python3 - <<PY
 import json
+def merge(new):
+    # results of properties not run this time are kept from the previous evaluation
+    try: old=json.load(open("$OUT/meta.json")).get("checks_run",[])
+    except Exception: old=[]
+    done={c["property"] for c in new}
+    return [c for c in old if c["property"] not in done]+new
+
 json.dump({"id":"$ID","breaks_property":"$(echo $PROPS | awk '{print $1}')","source":"written by an independent sub-agent that saw only the property text",
  "needs_to_manifest":open("$OUT/notes.md").read() if __import__('os').path.exists("$OUT/notes.md") else "",
  "confirmed":{"applies":"$res_apply","existing_suite_with_change":"$suite","demo_with_change":"$demo_with","demo_without_change":"$demo_without"},
- "checks_run":[${results%,}]},open("$OUT/meta.json","w"),indent=1)
+ "checks_run":merge([${results%,}])},open("$OUT/meta.json","w"),indent=1)
 PY
